@@ -1,12 +1,18 @@
 """Reference for the translation of two-sided user constraints (C17),
-written from the documented statement.
+written from the statement of the property.
 
-Per component (lb, ub, value v):
+Per component (lb, ub, value v), judged with the component's OWN magnitudes:
  * a side is *absent* when its limit is NaN or infinite;
- * both finite and |ub - lb| <= tol  ->  one equality at the midpoint,
-   violation |v - mid| (tol = 10*eps*max(size,1)*max(1, |finite limits|),
-   the documented size- and magnitude-dependent tolerance);
- * otherwise one inequality per present side, violation max(0, lb-v, v-ub).
+ * lb == ub exactly                ->  one equality at that level;
+ * both finite, 0 < |ub - lb| <= CUSHION * tol_i with
+   tol_i = 10*eps*max(m,1)*max(1,|lb_i|,|ub_i|)   ("lb = ub to rounding",
+   with a cushion of three decades)  ->  either reading is accepted (one
+   equality at the midpoint, or two inequalities); the two readings differ by
+   at most half the gap, which is the slack granted;
+ * otherwise                        ->  one inequality per present side,
+   violation max(0, lb-v, v-ub).  A component whose limits differ by more
+   than rounding of ITS OWN magnitude must not become an equality because a
+   sibling component of the same object has huge limits.
 A limit that is infinite *in the wrong direction* (lb=+inf, ub=-inf) makes the
 statement self-contradictory (interval semantics says infinite violation, the
 documented neutralisation says the limit is dropped): such components are
@@ -14,37 +20,58 @@ reported as ambiguous and both readings are accepted."""
 import numpy as np
 
 EPS = np.finfo(float).eps
+CUSHION = 1e3
 
 
-def tol_of(lb, ub):
-    both = np.concatenate([np.ravel(lb), np.ravel(ub)]).astype(float)
-    fin = both[np.isfinite(both)]
-    w = max(1.0, float(np.max(np.abs(fin)))) if fin.size else 1.0
-    return 10.0 * EPS * max(np.size(lb), np.size(ub), 1) * w
+def comp_tol(lo, hi, m):
+    return 10.0 * EPS * max(m, 1) * max(1.0, abs(lo), abs(hi))
 
 
 def expected(lb, ub, v):
     """Returns dict(viol=max violation (lower reading), viol_alt=upper
-    reading, n_ub, n_eq, ambiguous, half=slack for equality detection)."""
+    reading, n_ub, n_eq (for exact equalities only), zone=number of
+    components for which either reading is accepted, ambiguous, half=slack
+    for those components, scale=magnitude of the components that can
+    contribute to the maximum)."""
     lb = np.asarray(lb, dtype=float)
     ub = np.asarray(ub, dtype=float)
     v = np.asarray(v, dtype=float)
-    tol = tol_of(lb, ub)
-    n_ub = n_eq = 0
+    m = lb.size
+    n_ub = n_eq = zone = 0
     viol = 0.0
     alt = 0.0
+    half = 0.0
+    scale = 1.0
     ambiguous = False
     nanv = False
     for lo, hi, val in zip(lb, ub, v):
-        if np.isfinite(lo) and np.isfinite(hi) and abs(hi - lo) <= tol:
-            n_eq += 1
-            c = abs(val - 0.5 * (lo + hi))
-            if np.isnan(c):
-                nanv = True
-            else:
-                viol = max(viol, c)
-                alt = max(alt, c)
-            continue
+        fin = [abs(t) for t in (lo, hi) if np.isfinite(t)]
+        inside = True
+        for side, t in (("lo", lo), ("hi", hi)):
+            if np.isfinite(t) and np.isfinite(val):
+                d = 16 * EPS * max(abs(val), abs(t), 1e-300)
+                if (side == "lo" and val < lo + d) or \
+                        (side == "hi" and val > hi - d):
+                    inside = False
+        if np.isnan(val):
+            inside = False
+        if not inside and fin:
+            scale = max(scale, abs(val) if np.isfinite(val) else 0.0, *fin)
+        if np.isfinite(lo) and np.isfinite(hi):
+            gap = abs(hi - lo)
+            if gap == 0.0:
+                n_eq += 1
+                c = abs(val - lo)
+                if np.isnan(c):
+                    nanv = True
+                else:
+                    viol = max(viol, c)
+                    alt = max(alt, c)
+                continue
+            if gap <= CUSHION * comp_tol(lo, hi, m):
+                zone += 1
+                half = max(half, 0.5 * gap)
+                scale = max(scale, *fin)
         for side, lim in (("lo", lo), ("hi", hi)):
             if np.isnan(lim):
                 continue
@@ -61,4 +88,12 @@ def expected(lb, ub, v):
                 viol = max(viol, c, 0.0)
                 alt = max(alt, c, 0.0)
     return {"viol": viol, "viol_alt": alt, "n_ub": n_ub, "n_eq": n_eq,
-            "ambiguous": ambiguous, "half": 0.5 * tol, "nan": nanv}
+            "zone": zone, "ambiguous": ambiguous, "half": half, "nan": nanv,
+            "scale": scale}
+
+
+def counts_ok(got_ub, got_eq, n_ub, n_eq, zone):
+    """Row counts: every zone component is either one equality or two
+    inequalities (n_ub counts them as two inequalities)."""
+    k = got_eq - n_eq
+    return 0 <= k <= zone and got_ub == n_ub - 2 * k
